@@ -37,6 +37,8 @@ class Namer:
                 self.reserved_used.add(w)
                 return w
             f = 'bare'
+        if f == 'tok':      # substring-free unique token (digits are always followed by q)
+            return base + 'q'
         if f == 'bare':
             return base + self.rng.choice(['', '_', '_x', 'Z'])
         if f == 'upper':
